@@ -114,11 +114,21 @@ def run_state(case):
         if not arrays:
             return exp
         if numpy_api:
-            check_array("StepEnvNumpy.level_1_data()", env.level_1_data(), expected_l1(last_trade_vol, exp), lambda k: L1_DOC[k])
-            check_array("StepEnvNumpy.level_2_data()", env.level_2_data(), expected_l2(last_trade_vol, exp), l2_name)
+            got = [("StepEnvNumpy.level_1_data()", env.level_1_data(), expected_l1(last_trade_vol, exp), lambda k: L1_DOC[k]), ("StepEnvNumpy.level_2_data()", env.level_2_data(), expected_l2(last_trade_vol, exp), l2_name)]
         else:
-            check_array("StepEnv.level_1_data_array()", env.level_1_data_array(), expected_l1(last_trade_vol, exp), lambda k: L1_DOC[k])
-            check_array("StepEnv.level_2_data_array()", env.level_2_data_array(), expected_l2(last_trade_vol, exp), l2_name)
+            got = [("StepEnv.level_1_data_array()", env.level_1_data_array(), expected_l1(last_trade_vol, exp), lambda k: L1_DOC[k]), ("StepEnv.level_2_data_array()", env.level_2_data_array(), expected_l2(last_trade_vol, exp), l2_name)]
+        for what, arr, want, names in got:
+            check_array(what, arr, want, names)
+        # an array handed out earlier describes the state it was read in: it must not change when the market moves on
+        # or the method is called again (the caller keeps observations without copying them)
+        for what, arr, want, names in retained:
+            feat["retained"] = feat.get("retained", 0) + 1
+            try:
+                check_array(what, arr, want, names)
+            except Violation as v:
+                raise Violation("C19 an array returned earlier changed afterwards", "%s, read %d audits ago: %s" % (what, 1, v.msg))
+        del retained[:]
+        retained.extend(got)
         feat["arrays"] += 2
         return exp
 
@@ -137,6 +147,7 @@ def run_state(case):
                 raise Violation("C19 market-data dictionary entry is bound to the wrong series", "%s: got %r, recomputed per step %r" % (k, got, want))
 
     modified = set()
+    retained = []
     audit(-1)
     if case.get("dict0"):
         check_dict()
@@ -228,7 +239,7 @@ def run_state(case):
     if fills:
         feat["frames_with_fills"] = 1
     nontrivial = feat["asym"] >= 1
-    return nontrivial, {"array_states": 1, "states_at_the_top_of_the_price_range": int(shift == 1), "states_at_the_bottom_of_the_price_range": int(shift == 2), "end_to_end_frames_with_fills": feat.get("frames_with_fills", 0), "arrays_checked": feat["arrays"], "steps": feat["steps"], "asymmetric_audits": feat["asym"], "asymmetric_audits_with_distinct_nonzero_traded_volume": feat.get("asym_with_trade_vol", 0), "trading_toggles": feat.get("toggles", 0), "modifications": feat.get("modifies", 0), "dictionaries_checked": feat["dicts"], "dictionaries_read_before_the_first_step": feat.get("dicts_before_first_step", 0), "numpy_api_cases": int(numpy_api), "orders_placed_in_bulk_at_one_price": feat.get("bulk_orders", 0), "cases_with_a_level_of_65536_or_more_orders": int(feat.get("bulk_max", 0) >= 65536), "cases_with_a_level_of_256_or_more_orders": int(feat.get("bulk_max", 0) >= 256)}
+    return nontrivial, {"array_states": 1, "states_at_the_top_of_the_price_range": int(shift == 1), "states_at_the_bottom_of_the_price_range": int(shift == 2), "end_to_end_frames_with_fills": feat.get("frames_with_fills", 0), "arrays_checked": feat["arrays"], "steps": feat["steps"], "asymmetric_audits": feat["asym"], "asymmetric_audits_with_distinct_nonzero_traded_volume": feat.get("asym_with_trade_vol", 0), "trading_toggles": feat.get("toggles", 0), "modifications": feat.get("modifies", 0), "arrays_re_read_after_later_calls": feat.get("retained", 0), "dictionaries_checked": feat["dicts"], "dictionaries_read_before_the_first_step": feat.get("dicts_before_first_step", 0), "numpy_api_cases": int(numpy_api), "orders_placed_in_bulk_at_one_price": feat.get("bulk_orders", 0), "cases_with_a_level_of_65536_or_more_orders": int(feat.get("bulk_max", 0) >= 65536), "cases_with_a_level_of_256_or_more_orders": int(feat.get("bulk_max", 0) >= 256)}
 
 
 def state_case_st():
@@ -342,7 +353,7 @@ RULE = (
     "asymmetric in price, total volume, touch volume and touch count, with several occupied levels), cancels and steps on StepEnv or StepEnvNumpy; "
     "after every call element k of level_1_data_array / level_2_data_array (StepEnv) or level_1_data / level_2_data (StepEnvNumpy) must equal the "
     "quantity the documentation assigns to index k (traded volume of the last step, bid price, ask price, bid volume, ask volume, then per level bid "
-    "volume, bid count, ask volume, ask count), recomputed from get_orders() / get_trades() of the same object, with documented lengths 9 and 45; at the "
+    "volume, bid count, ask volume, ask count), recomputed from get_orders() / get_trades() of the same object, with documented lengths 9 and 45; an array handed out earlier is read again after the following calls and must still hold the values it had (no aliasing of internal buffers); at the "
     "end get_market_data() must have exactly the documented keys, each equal to the per-step series recomputed by the harness. Non-trivial: an audited "
     "state where every bid/ask pair of quantities differs and level >= 1 is occupied on both sides (states that additionally have a distinct non-zero traded volume are counted separately). "
     "(1b) populated levels: one price level holding n orders for every n in {255, 256, 257, 65535, 65536, 65537} (enumerated, both APIs) and generated n up to 70 000 "
